@@ -23,7 +23,7 @@ TB = [(8, 2), (2, 1), (5, 6)]
 def life(fl, be, n, k, l, bg, t, bb, order, seed, tool=None, heavyio=1, timeout=3600, weight=1):
     return Job("%s-%s-n%d-k%d-l%d-bg%d-t%d-bb%d-o%d" % (tool or fl, be, n, k, l, bg, t, bb, order), "drv_c16", fl, be,
                ["--mode", "lifecycle", "--n", n, "--k", k, "--l", l, "--Bgbit", bg, "--t", t, "--basebit", bb, "--order", order,
-                "--heavyio", heavyio, "--seed", seed], tool=tool, timeout=timeout, weight=weight)
+                "--heavyio", heavyio, "--seed", seed, "--prelude", order % 2], tool=tool, timeout=timeout, weight=weight)
 
 
 def run(tier, seed, t0):
